@@ -17,7 +17,7 @@ TRUSTED = [
     'flatten/unflatten (torch._utils) are modelled as concatenation/slicing; triangular packing by C14',
     'bucket_cap_bytes = int(cap_mb * 1e6) is read from the communicator, the float conversion is not modelled',
 ]
-THEOREMS = ['each_tensor_once', 'flush_leaves_nothing', 'capacity_and_keys_respected', 'bucket_transparent']
+THEOREMS = ['each_tensor_once', 'flush_leaves_nothing', 'capacity_and_keys_respected', 'bucket_transparent', 'brun_cap_irrelevant']
 NOTES = 'Model mirrors the repaired code (bucket key = member ranks, D4; new bucket on dtype change, D8).'
 
 DT = {'float32': (4, 0), 'float64': (8, 1), 'float16': (2, 2)}
@@ -49,7 +49,7 @@ def gen_case(rng, tier):
             k = rng.randint(1, 6)
             shape = [k, k]
         else:
-            shape = rng.choice([[], [1], [3], [2, 3], [9, 9], [4, 1, 2], [5]])
+            shape = rng.choice([[], [1], [3], [2, 3], [9, 9], [4, 1, 2], [5], [0], [0, 3]])   # incl. zero-element tensors: in a bucket but 0 bytes
         dt = rng.choice(['float32', 'float64', 'float16']) if mixed else base_dt
         ops.append(['add', gi, shape, dt, int(rng.random() < 0.5), int(sym), t])
         numel = 1
